@@ -40,7 +40,7 @@ def Disabled (s' : State) (k : Kind) (i : Id) (p' : Prov) (sp' : SP) (needNoData
   else kvGet s'.provs i = some p' ∧ kvGet s'.sps (k, i) = some sp'
 
 theorem finish_disabled (st : State) (k : Kind) (pid : Id) (p' : Prov) (sp' : SP) (flag : Bool)
-    (hk : k ≠ .authorizer) (hpk : p'.kind = k) :
+    (hpk : p'.kind = k) :
     Disabled (finishStorage (putSP st k pid sp') pid p' sp' flag) k pid p' sp' flag := by
   unfold Disabled finishStorage
   split
@@ -50,7 +50,7 @@ theorem finish_disabled (st : State) (k : Kind) (pid : Id) (p' : Prov) (sp' : SP
     · unfold delSP; exact kvGet_kvDel_eq _ _
   · refine ⟨?_, ?_⟩
     · unfold putProv; exact kvGet_kvSet_eq _ _ _
-    · rw [sps_putProv]; exact getSP_putSP_eq st k pid sp' hk
+    · rw [sps_putProv]; exact getSP_putSP_eq st k pid sp'
 
 theorem exec_ok (s s' : State) (c : Id) :
     exec s c (noTransfers (.ok s')) = ({ s' with accts := bumpNonce s.accts c }, .ok) := rfl
@@ -63,7 +63,7 @@ theorem loadBlobber_of {s : State} {r : Req} {p : Prov} {sp : SP} (hp : kvGet s.
     (hk : p.kind = .blobber) (hsp : kvGet s.sps (.blobber, r.reqId) = some sp) :
     loadBlobber s r = .ok ⟨r.reqId, p, sp, s⟩ := by
   unfold loadBlobber
-  simp [hp, hk, getSP_of_ne s .blobber r.reqId (by decide), hsp]
+  simp [hp, hk, getSP_eq, hsp]
 
 /-- the state `loadValidator` leaves: the request's id has left the validators partition (when it is written back). -/
 def afterVLoad (cfg : Cfg) (s : State) (r : Req) : State :=
@@ -75,7 +75,7 @@ theorem loadValidator_of {cfg : Cfg} {s : State} {r : Req} {p : Prov} {sp : SP}
     loadValidator cfg s r = .ok ⟨r.reqId, p, sp, afterVLoad cfg s r⟩ := by
   have hg : ∀ s1 : State, s1.sps = s.sps → getSP s1 .validator r.reqId = some sp := by
     intro s1 h1
-    rw [getSP_of_ne s1 .validator r.reqId (by decide), h1, hsp]
+    rw [getSP_eq, h1, hsp]
   unfold loadValidator afterVLoad
   simp only [hp, hk]
   by_cases hd : cfg.demeter = true
@@ -95,7 +95,7 @@ theorem killBlobberK_disable_effect (key : SaveKey) (cfg : Cfg) (s : State) (r :
     (hkill : spKill sp cfg.killSlash = .ok sp') :
     ∃ s', killBlobberK key cfg s r = .ok s' ∧ Disabled s' .blobber r.reqId { p with killed := true } sp' true := by
   refine ⟨finishStorage (putSP s .blobber r.reqId sp') r.reqId { p with killed := true } sp' true, ?_,
-    finish_disabled s .blobber r.reqId _ sp' true (by decide) hk⟩
+    finish_disabled s .blobber r.reqId _ sp' true hk⟩
   unfold killBlobberK provKill
   rw [loadBlobber_of hp hk hsp]
   simp only [hauth, ne_eq, not_true_eq_false, ↓reduceIte, hl1, hl2, Bool.or_self, Bool.false_eq_true, hkill, hk]
@@ -109,7 +109,7 @@ theorem shutdownBlobberK_disable_effect (key : SaveKey) (cfg : Cfg) (s : State) 
     (hkill : spKill sp (halfSlash cfg) = .ok sp') :
     ∃ s', shutdownBlobberK key cfg s r = .ok s' ∧ Disabled s' .blobber r.reqId { p with shutDown := true } sp' true := by
   refine ⟨finishStorage (putSP s .blobber r.reqId sp') r.reqId { p with shutDown := true } sp' true, ?_,
-    finish_disabled s .blobber r.reqId _ sp' true (by decide) hk⟩
+    finish_disabled s .blobber r.reqId _ sp' true hk⟩
   have hw : sp'.wallet = sp.wallet := (spKill_spec hkill).2.2.1
   unfold shutdownBlobberK provShutDown
   rw [loadBlobber_of hp hk hsp]
@@ -123,7 +123,7 @@ theorem killValidatorK_disable_effect (key : SaveKey) (cfg : Cfg) (s : State) (r
     (hkill : spKill sp cfg.killSlash = .ok sp') :
     ∃ s', killValidatorK key cfg s r = .ok s' ∧ Disabled s' .validator r.reqId { p with killed := true } sp' false := by
   refine ⟨finishStorage (putSP (afterVLoad cfg s r) .validator r.reqId sp') r.reqId { p with killed := true } sp' false, ?_,
-    finish_disabled _ .validator r.reqId _ sp' false (by decide) hk⟩
+    finish_disabled _ .validator r.reqId _ sp' false hk⟩
   unfold killValidatorK provKill
   rw [loadValidator_of hp hk hsp]
   simp only [hauth, ne_eq, not_true_eq_false, ↓reduceIte, hl1, hl2, Bool.or_self, Bool.false_eq_true, hkill, hk]
@@ -138,7 +138,7 @@ theorem shutdownValidatorK_disable_effect (key : SaveKey) (cfg : Cfg) (s : State
     ∃ s', shutdownValidatorK key cfg s r = .ok s' ∧
       Disabled s' .validator r.reqId { p with shutDown := true } sp' false := by
   refine ⟨finishStorage (putSP (afterVLoad cfg s r) .validator r.reqId sp') r.reqId { p with shutDown := true } sp' false, ?_,
-    finish_disabled _ .validator r.reqId _ sp' false (by decide) hk⟩
+    finish_disabled _ .validator r.reqId _ sp' false hk⟩
   have hw : sp'.wallet = sp.wallet := (spKill_spec hkill).2.2.1
   unfold shutdownValidatorK provShutDown
   rw [loadValidator_of hp hk hsp]
@@ -152,7 +152,7 @@ theorem killed_pool_balances {sp sp' : SP} {slash : F64} (h : spKill sp slash = 
     (∀ j d, kvGet sp.pools j = some d → ∃ b, kvGet sp'.pools j = some { d with balance := b } ∧
       (if F64.eq slash F64.zero then b = d.balance else multFloat64 d.balance (reduction slash) = .ok b)) ∧
     (∀ j, kvGet sp.pools j = none → kvGet sp'.pools j = none) := by
-  obtain ⟨hd, _, _, _, _, _, _, _, _, hp⟩ := spKill_spec h
+  obtain ⟨hd, _, _, _, _, _, _, _, hp⟩ := spKill_spec h
   refine ⟨hd, ?_, ?_⟩
   · intro j d hj
     rcases hp with ⟨hz, he⟩ | ⟨hz, hs⟩
@@ -247,12 +247,11 @@ def tenth : F64 := F64.ofBits 0x3fb999999999999a     -- 0.1
 
 def cfg0 : Cfg :=
   { owner := 3, killSlash := half, demeter := true, minStake := fun _ => 0, maxStake := fun _ => 200000000000000,
-    minLock := 0, spMinStake := 10000000000 }
+    minLock := 0, spMinStake := fun _ => 10000000000 }
 
 def sp0 : SP :=
   { pools := [(41, ⟨10000000000000, 0, 1700000000⟩), (42, ⟨3330000000007, 0, 1700000000⟩)], reward := 0,
-    wallet := some 50, maxDelegates := 10, minStake := 10000000000, ratio := tenth, dead := false, offers := 0,
-    inner := false }
+    wallet := some 50, maxDelegates := 10, minStake := 10000000000, ratio := tenth, dead := false, offers := 0 }
 
 /-- blobber 30 (delegate wallet 50, two delegates) and miner 10. -/
 def s0 : State :=
@@ -311,7 +310,6 @@ theorem killMiner_effect (cfg : Cfg) (s : State) (r : Req) (k : Kind) (p : Prov)
     (killTxn cfg k s r).2 = .ok ∧
     kvGet (killTxn cfg k s r).1.provs r.reqId = some { p with killed := true } ∧
     kvGet (killTxn cfg k s r).1.sps (k, r.reqId) = some { sp with dead := true } := by
-  have hne : k ≠ .authorizer := by rcases hk with rfl | rfl <;> decide
   have hkill : kill cfg k s r =
       .ok (putSP (putProv s r.reqId { p with killed := true }) k r.reqId { sp with dead := true }) := by
     have : kill cfg k s r = killMinerNode k cfg s r := by rcases hk with rfl | rfl <;> rfl
@@ -325,7 +323,7 @@ theorem killMiner_effect (cfg : Cfg) (s : State) (r : Req) (k : Kind) (p : Prov)
   refine ⟨rfl, ?_, ?_⟩
   · show kvGet (putSP (putProv s r.reqId { p with killed := true }) k r.reqId { sp with dead := true }).provs r.reqId = _
     rw [provs_putSP]; unfold putProv; exact kvGet_kvSet_eq _ _ _
-  · exact getSP_putSP_eq _ k r.reqId _ hne
+  · exact getSP_putSP_eq _ k r.reqId _
 
 /-! ## second_attempt_noop -/
 
@@ -414,44 +412,10 @@ theorem loadSP_ok {s : State} {k : Kind} {i : Id} {sp : SP} (h : loadSP s k i = 
     | none => simp [hg] at h
     | some x => simp only [hg] at h; injection h with h; rw [h]
 
-/-- saving back a dead pool exactly as it was read changes nothing. -/
-theorem saveSP_dead_self {s : State} {k : Kind} {i : Id} {sp : SP} (hg : getSP s k i = some sp)
-    (hd : sp.dead = true) : saveSP s k i sp = s := by
-  unfold getSP at hg
-  cases hst : kvGet s.sps (k, i) with
-  | none => simp [hst] at hg
-  | some st0 =>
-    simp only [hst, Option.map_some, Option.some.injEq] at hg
-    have hsame : viewSP k st0 = st0 := by
-      unfold viewSP
-      split
-      · rename_i hc
-        exfalso
-        have : viewSP k st0 = emptyRead := by unfold viewSP; simp [hc.1, hc.2]
-        rw [this] at hg
-        rw [← hg] at hd
-        cases hd
-      · rfl
-    rw [hsame] at hg
-    subst hg
-    have hinner : k = .authorizer → st0.inner = false := by
-      intro hk
-      cases hi : st0.inner
-      · rfl
-      · exfalso
-        have : viewSP k st0 = emptyRead := by unfold viewSP; simp [hk, hi]
-        rw [hsame] at this
-        rw [this] at hd
-        cases hd
-    unfold saveSP putSPWrapped putSP
-    by_cases hk : k = .authorizer
-    · have hi := hinner hk
-      simp only [hk, ↓reduceIte]
-      have : ({ st0 with inner := false } : SP) = st0 := by
-        cases st0; simp_all
-      rw [this, kvSet_self _ _ _ (hk ▸ hst)]
-    · simp only [hk, ↓reduceIte]
-      rw [kvSet_self _ _ _ hst]
+/-- saving back a pool exactly as it was read changes nothing. -/
+theorem saveSP_self {s : State} {k : Kind} {i : Id} {sp : SP} (hg : getSP s k i = some sp) : saveSP s k i sp = s := by
+  unfold saveSP putSP
+  rw [kvSet_self _ _ _ hg]
 
 /-- **no_more_rewards**: a reward payment to a provider whose stake pool (the one the paying contract loads, under the
 provider's id) is dead moves nothing: the state is unchanged — no service charge, no delegate reward. -/
@@ -484,22 +448,72 @@ theorem no_more_rewards (s s' : State) (k : Kind) (i : Id) (v : Nat) (sp : SP)
       simp only at h
       injection h with h
       rw [← h]
-      exact saveSP_dead_self hsp hdead
+      exact saveSP_self hsp
+
+/-- the provider's records survive the kill / shut-down: somebody has staked, or it is a blobber that stores data
+(`SavedData > 0`) — then the record is kept **even with no delegate pool at all**. -/
+def Survives (k : Kind) (p : Prov) (sp : SP) : Prop :=
+  sp.pools.isEmpty = false ∨ (k = .blobber ∧ p.hasData = true)
+
+/-- for a surviving provider `Disabled` is its second alternative: flagged record, its own pool is the killed pool — which
+is DEAD also when there was nothing to slash (`spKill_spec`: the flag is set before `SlashFraction` looks at the pools). -/
+theorem disabled_survives {s' : State} {k : Kind} {i : Id} {p p' : Prov} {sp sp' : SP} {slash : F64}
+    (hkill : spKill sp slash = .ok sp') (hkeep : Survives k p sp) (hdata : p'.hasData = p.hasData)
+    (hd : Disabled s' k i p' sp' (k == .blobber)) :
+    kvGet s'.provs i = some p' ∧ kvGet s'.sps (k, i) = some sp' := by
+  have he : sp'.pools.isEmpty = sp.pools.isEmpty := (spKill_spec hkill).2.2.2.2.2.2.2.1
+  unfold Disabled at hd
+  rcases hkeep with hne | ⟨hk, hh⟩
+  · simp only [he, hne, Bool.and_false, Bool.false_eq_true, ↓reduceIte] at hd
+    exact hd
+  · subst hk
+    simp only [beq_self_eq_true, hdata, hh, Bool.not_true, Bool.or_self, Bool.false_and, Bool.false_eq_true,
+      ↓reduceIte] at hd
+    exact hd
+
+/-- with no delegate pool, `Kill` succeeds for every slash setting in `[0, 1]` and only sets the dead flag. -/
+theorem spKill_empty (sp : SP) (slash : F64) (hempty : sp.pools = [])
+    (hvalid : (F64.lt slash F64.zero || F64.gt slash F64.one) = false) :
+    spKill sp slash = .ok { sp with dead := true } := by
+  unfold spKill slashFraction
+  split
+  · rfl
+  · simp only [hvalid, Bool.false_eq_true, ↓reduceIte, hempty, slashPools]
+
+/-- **disable_effect with nothing to slash**: a blobber that stores data and has NO delegate pool when the owner kills it
+(or the owner / its delegate wallet shuts it down) keeps its records, and its own stake pool is marked DEAD all the same
+(`sp'` is `{ sp with dead := true }` by `spKill_empty`). -/
+theorem disable_effect_empty_pool (cfg : Cfg) (s : State) (r : Req) (p : Prov) (sp sp' : SP)
+    (hp : kvGet s.provs r.reqId = some p) (hpk : p.kind = .blobber) (hl1 : p.killed = false) (hl2 : p.shutDown = false)
+    (hsp : kvGet s.sps (.blobber, r.reqId) = some sp) (hdata : p.hasData = true) :
+    (cfg.owner = r.caller → spKill sp cfg.killSlash = .ok sp' →
+      (killTxn cfg .blobber s r).2 = .ok ∧
+      kvGet (killTxn cfg .blobber s r).1.provs r.reqId = some { p with killed := true } ∧
+      kvGet (killTxn cfg .blobber s r).1.sps (.blobber, r.reqId) = some sp' ∧ sp'.dead = true) ∧
+    ((cfg.owner = r.caller ∨ sp.wallet = some r.caller) → spKill sp (halfSlash cfg) = .ok sp' →
+      (shutdownTxn cfg .blobber s r).2 = .ok ∧
+      kvGet (shutdownTxn cfg .blobber s r).1.provs r.reqId = some { p with shutDown := true } ∧
+      kvGet (shutdownTxn cfg .blobber s r).1.sps (.blobber, r.reqId) = some sp' ∧ sp'.dead = true) := by
+  have hkeep : Survives .blobber p sp := Or.inr ⟨rfl, hdata⟩
+  refine ⟨fun hauth hkill => ?_, fun hauth hkill => ?_⟩
+  · obtain ⟨h1, hd⟩ := kill_disable_effect cfg s r .blobber p sp sp' (Or.inl rfl) hp hpk hl1 hl2 hsp hauth hkill
+    have := disabled_survives (p' := { p with killed := true }) hkill hkeep rfl hd
+    exact ⟨h1, this.1, this.2, (spKill_spec hkill).1⟩
+  · obtain ⟨h1, hd⟩ := shutdown_disable_effect cfg s r .blobber p sp sp' (Or.inl rfl) hp hpk hl1 hl2 hsp hauth hkill
+    have := disabled_survives (p' := { p with shutDown := true }) hkill hkeep rfl hd
+    exact ⟨h1, this.1, this.2, (spKill_spec hkill).1⟩
 
 /-- **no_more_rewards after a kill**: combine `kill_disable_effect` with `no_more_rewards`. -/
 theorem kill_then_no_rewards (cfg : Cfg) (s : State) (r : Req) (k : Kind) (p : Prov) (sp sp' : SP) (v : Nat) (s'' : State)
     (hk : k = .blobber ∨ k = .validator)
     (hp : kvGet s.provs r.reqId = some p) (hpk : p.kind = k) (hl1 : p.killed = false) (hl2 : p.shutDown = false)
     (hsp : kvGet s.sps (k, r.reqId) = some sp) (hauth : cfg.owner = r.caller)
-    (hkill : spKill sp cfg.killSlash = .ok sp') (hne : sp.pools.isEmpty = false)
+    (hkill : spKill sp cfg.killSlash = .ok sp') (hkeep : Survives k p sp)
     (h : payReward (killTxn cfg k s r).1 k r.reqId v = .ok s'') : s'' = (killTxn cfg k s r).1 := by
   obtain ⟨_, hd⟩ := kill_disable_effect cfg s r k p sp sp' hk hp hpk hl1 hl2 hsp hauth hkill
-  have hne' : sp'.pools.isEmpty = false := by rw [(spKill_spec hkill).2.2.2.2.2.2.2.2.1]; exact hne
-  unfold Disabled at hd
-  simp only [hne', Bool.and_false, Bool.false_eq_true, ↓reduceIte] at hd
-  have hka : k ≠ .authorizer := by rcases hk with rfl | rfl <;> decide
+  have hd := disabled_survives (p' := { p with killed := true }) hkill hkeep rfl hd
   have hg : getSP (killTxn cfg k s r).1 k r.reqId = some sp' := by
-    rw [getSP_of_ne _ k r.reqId hka]; exact hd.2
+    rw [getSP_eq]; exact hd.2
   exact no_more_rewards _ s'' k r.reqId v sp' hg (spKill_spec hkill).1 h
 
 /-- **no_more_rewards after a shut-down** (the code as it is): combine `shutdown_disable_effect` with `no_more_rewards`. -/
@@ -507,16 +521,31 @@ theorem shutdown_then_no_rewards (cfg : Cfg) (s : State) (r : Req) (k : Kind) (p
     (hk : k = .blobber ∨ k = .validator)
     (hp : kvGet s.provs r.reqId = some p) (hpk : p.kind = k) (hl1 : p.killed = false) (hl2 : p.shutDown = false)
     (hsp : kvGet s.sps (k, r.reqId) = some sp) (hauth : cfg.owner = r.caller ∨ sp.wallet = some r.caller)
-    (hkill : spKill sp (halfSlash cfg) = .ok sp') (hne : sp.pools.isEmpty = false)
+    (hkill : spKill sp (halfSlash cfg) = .ok sp') (hkeep : Survives k p sp)
     (h : payReward (shutdownTxn cfg k s r).1 k r.reqId v = .ok s'') : s'' = (shutdownTxn cfg k s r).1 := by
   obtain ⟨_, hd⟩ := shutdown_disable_effect cfg s r k p sp sp' hk hp hpk hl1 hl2 hsp hauth hkill
-  have hne' : sp'.pools.isEmpty = false := by rw [(spKill_spec hkill).2.2.2.2.2.2.2.2.1]; exact hne
-  unfold Disabled at hd
-  simp only [hne', Bool.and_false, Bool.false_eq_true, ↓reduceIte] at hd
-  have hka : k ≠ .authorizer := by rcases hk with rfl | rfl <;> decide
+  have hd := disabled_survives (p' := { p with shutDown := true }) hkill hkeep rfl hd
   have hg : getSP (shutdownTxn cfg k s r).1 k r.reqId = some sp' := by
-    rw [getSP_of_ne _ k r.reqId hka]; exact hd.2
+    rw [getSP_eq]; exact hd.2
   exact no_more_rewards _ s'' k r.reqId v sp' hg (spKill_spec hkill).1 h
+
+/-- blobber 30 stores data and has no delegate at all; `min_stake_per_delegate` is 0 (with the repo's setting of 1 token an
+unstaked pool earns nothing anyway: `total < MinStake`). -/
+def spNoDel : SP := { sp0 with pools := [], minStake := 0 }
+def sData : State :=
+  { s0 with provs := [(30, ⟨.blobber, false, false, true⟩)], sps := [((.blobber, 30), spNoDel)] }
+
+/-- non-vacuity of `disable_effect_empty_pool` / `kill_then_no_rewards` / `shutdown_then_no_rewards` with NO delegates:
+killed by the owner (shut down by the wallet) the record stays, the pool is dead, and a reward of 100 paid afterwards is
+credited to nobody — a pool that is not dead gets the whole 100 as provider reward (`sp.Reward`, last conjunct). -/
+example :
+    kvGet (killTxn cfg0 .blobber sData ⟨3, 30⟩).1.sps (.blobber, 30) = some { spNoDel with dead := true } ∧
+    (payReward (killTxn cfg0 .blobber sData ⟨3, 30⟩).1 .blobber 30 100).toOption.bind
+      (fun s => kvGet s.sps (.blobber, 30)) = some { spNoDel with dead := true } ∧
+    kvGet (shutdownTxn cfg0 .blobber sData ⟨50, 30⟩).1.sps (.blobber, 30) = some { spNoDel with dead := true } ∧
+    (payReward sData .blobber 30 100).toOption.bind (fun s => kvGet s.sps (.blobber, 30)) =
+      some { spNoDel with reward := 100 } := by
+  decide +kernel
 
 /-- **no_more_rewards was false with the old save key**: on the state of `oldKey_shutdown_disable_effect_false` a reward
 of 1 000 000 to blobber 30 is still credited: 100 000 service charge and 675 169 + 224 831 to the two delegates. -/
@@ -578,7 +607,7 @@ theorem shutdown_unauthorised_noop_partial (cfg : Cfg) (k : Kind) (s : State) (r
       (slash := halfSlash cfg) (key := shutDownSaveKey) (s := s) h (by
         intro L hl
         obtain ⟨_, _, hp, hk, hs⟩ := loadBlobber_ok hl
-        have := hw L.p L.sp hp (by rw [hk, getSP_of_ne s .blobber r.reqId (by decide)]; exact hs)
+        have := hw L.p L.sp hp (by rw [hk, getSP_eq]; exact hs)
         exact ⟨this, hlive rfl L.p hp⟩)
     exact ⟨e, by show shutdownBlobberK shutDownSaveKey cfg s r = _; unfold shutdownBlobberK; rw [he]⟩
   | validator =>
